@@ -215,6 +215,8 @@ class Flow:
         if cal is None:
             return ('call', '<indirect>', [self.expr(a, depth) for a in t['args']], b)
         fn = strip_generics(t.get('fn', cal))
+        if 'szty' in t:
+            return ('sizeof', t['szty'], t.get('sz'))
         if fn in INDEXING and len(t['args']) == 2:
             return ('index', self.expr(t['args'][0], depth), self.expr(t['args'][1], depth))
         if (fn in TRANSPARENT_SET or strip_generics(cal) in TRANSPARENT_SET) and t['args']:
@@ -265,7 +267,7 @@ def leaves(e, out=None):
     if out is None:
         out = set()
     k = e[0]
-    if k in ('param', 'upvar', 'local', 'const', 'str', 'item', 'fn', 'top'):
+    if k in ('param', 'upvar', 'local', 'const', 'str', 'item', 'fn', 'top', 'sizeof'):
         out.add(e if k != 'const' else ('const', e[1]))
     elif k == 'field':
         # a field path is itself a leaf when its root is a leaf place
@@ -386,6 +388,8 @@ def show(e, depth=0):
         return str(e[1]) if e[1] is not None else 'const<%s>' % e[2]
     if k == 'str':
         return repr(e[1])
+    if k == 'sizeof':
+        return 'size_of<%s>' % e[1].split('::')[-1]
     if k == 'item':
         return e[1]
     if k == 'fn':
